@@ -185,16 +185,27 @@ func (t *ErrTrack) propagate() {
 			for _, in := range *refs {
 				switch x := in.(type) {
 				case *ssa.Phi:
-					// only along incoming edges that lie on a path of the tracked kind
+					// a phi carries the tracked error when every incoming edge that lies on a path of the
+					// tracked kind brings a carrier: if another value can arrive on such a path (the error
+					// replaced under a condition that is not a test of the error itself), whatever is
+					// done with the phi is not known to be done with the source's error
+					feasible, all := 0, true
 					for i, e := range x.Edges {
-						if e != v {
-							continue
-						}
 						pred := x.Block().Preds[i]
 						predOK := t.Reach[pred] || pred == t.call.Block()
-						if predOK && t.EdgeOK(pred, x.Block()) {
-							add(x)
+						if !predOK || !t.EdgeOK(pred, x.Block()) {
+							continue
 						}
+						if e == ssa.Value(x) {
+							continue
+						}
+						feasible++
+						if !t.Carriers[e] {
+							all = false
+						}
+					}
+					if feasible > 0 && all {
+						add(x)
 					}
 				case *ssa.MakeInterface:
 					add(x)
